@@ -307,3 +307,52 @@ func TestFidelity(t *testing.T) {
 		}
 	})
 }
+
+// TestDNSEveryWriteLength: the DNS tunnel cuts every carrier write into chunks whose encoded length depends on the
+// write's length modulo the chunk size, and host-name labels, record strings and padding each have their own boundary
+// cases. Rather than hoping that random lengths hit each residue, every application write length from 1 up to more
+// than one chunk (thorough: several chunks) is sent over one logical connection and echoed back, one write at a time.
+func TestDNSEveryWriteLength(t *testing.T) {
+	for _, name := range []string{"dns/plain"} {
+		var c config
+		for _, x := range configs {
+			if x.name == name {
+				c = x
+			}
+		}
+		p, _, done, err := getPair(c, false, func(tgt *vlib.Target) { tgt.DrainNew(); tgt.SetHandler(vlib.EchoHandler) })
+		if err != nil {
+			if vlib.IsBindError(err) {
+				vlib.Rec.Inconclusive("bind")
+				return
+			}
+			t.Fatalf("pair start failed: %v", err)
+		}
+		failed := true
+		func() {
+			defer func() { done(failed) }()
+			app, err := p.Dial("data")
+			if err != nil {
+				t.Fatalf("dial: %v", err)
+			}
+			defer app.Close()
+			max := vlib.Pick(420, 1600)
+			for n := 1; n <= max; n++ {
+				data := vlib.PRF(uint64(n)*31+5, 0, n)
+				app.SetWriteDeadline(time.Now().Add(30 * time.Second))
+				if _, err := app.Write(data); err != nil {
+					t.Fatalf("write of %d bytes: %v", n, err)
+				}
+				got, rerr := vlib.ReadFullTimeout(app, n, 30*time.Second)
+				d := caseDesc{Config: name, LenUp: n, LenDown: n, Key: uint64(n)*31 + 5}
+				vlib.Rec.Case(fmt.Sprintf("every-length %s %d", name, n), true, []string{"cfg:" + name, "every-write-length"}, func() interface{} { return d })
+				if off := vlib.FirstDiff(got, data); off != -1 {
+					problem := fmt.Sprintf("a single write of %d bytes over the DNS tunnel (after writes of every smaller length on the same connection) came back as %d bytes, first difference at offset %d (%v); log tail: %v", n, len(got), off, rerr, vlib.Tap.Tail(6))
+					vlib.Rec.Violation(map[string]interface{}{"property": "C01", "case": d, "every_write_length_up_to": n, "problem": problem})
+					t.Fatalf("C01: %s", problem)
+				}
+			}
+			failed = false
+		}()
+	}
+}
